@@ -6,12 +6,22 @@ parser_util.transform_parse_tree); table: Emboss/Generated/FmtTable.lean (regene
 from module_ir.PRODUCTIONS and format_emb._formatters on every run); spec:
 Emboss/Spec/Fmt.lean; lemmas: Emboss/Lemmas/Fmt*.lean.
 
+The kernel evaluations over the regenerated tables are in Lemmas/FmtTableOK.lean,
+FmtNormalOK.lean, FmtSeparableOK.lean (re-elaborated only when a generated file changes).
+
 What is *not* a theorem here (decided by the correspondence + oracle on the real code,
-and labelled so in the manifest): fmt(fmt t) = fmt t, and that the formatted text
-re-tokenizes to the same tokens (needs tokenizer ∘ parser ∘ render as one object).
+and labelled so in the manifest): fmt(fmt t) = fmt t in full (`C11_format_fixed_point_partial`
+needs the parse tree of the output to be equivalent to the input tree), and that the
+formatted text re-tokenizes to the same tokens (needs tokenizer ∘ parser ∘ render as one
+object; `C11_tokens_preserved` + `C11_render_separable` are its character-level and
+token-class-level parts).
 -/
 import Emboss.Lemmas.FmtSanity
-import Emboss.Lemmas.FmtTable
+import Emboss.Lemmas.FmtTableOK
+import Emboss.Lemmas.FmtNormalOK
+import Emboss.Lemmas.FmtSeparableOK
+import Emboss.Lemmas.FmtIdem
+import Emboss.Lemmas.FmtCommentOK
 namespace Emboss.Fmt
 open Emboss.Generated.FmtTable
 
@@ -34,8 +44,7 @@ symbols are computed once, the rest is arithmetic — and transported to the tab
 strings by `tableTypedN_sound`; the interned copy is checked to decode to `formatters`.) -/
 theorem C11_table_ok :
     tableTyped formatters = true ∧ formatters.map prodOf = grammar ∧ kindOf startSymbol = .str :=
-  ⟨tableTypedN_sound symbols formattersN formatters (by decide +kernel) (by decide +kernel),
-   by decide +kernel, by decide +kernel⟩
+  table_ok
 
 /-! ## Totality -/
 
@@ -83,8 +92,8 @@ theorem C11_tokens_preserved (iw : Nat) (t : Tree)
   obtain ⟨s, rfl⟩ := hk
   exact ⟨s, hv, by rw [← leaves_content_eq t hl]; exact hc hl⟩
 
-/-! Non-vacuity: the parse tree of "-- hi  \n# c\n" (a documentation line with trailing
-blanks followed by a comment line), built by looking the productions up in the live
+/-! Non-vacuity: the parse tree of "-- hi  \n# c \t\n" (a documentation line with trailing
+blanks followed by a comment line with trailing blanks), built by looking the productions up in the live
 table; it is well-formed, and the model formats it to "-- hi\n\n# c\n"?  No: the
 comment line belongs to the doc line's `eol`, so the text is "-- hi\n# c\n". -/
 
@@ -102,7 +111,7 @@ def exTree : Tree :=
           .tok "\"\\n\"" "\n".toList,
           .node (ix "comment-line*" ["comment-line", "comment-line*"]) [
             .node (ix "comment-line" ["Comment?", "\"\\n\""]) [
-              .node (ix "Comment?" ["Comment"]) [.tok "Comment" "# c".toList],
+              .node (ix "Comment?" ["Comment"]) [.tok "Comment" "# c \t".toList],
               .tok "\"\\n\"" "\n".toList],
             .node (ix "comment-line*" []) []]]],
       .node (ix "doc-line*" []) []],
@@ -113,100 +122,235 @@ def exTree : Tree :=
 example : wf formatters exTree = true ∧ layoutBlank exTree = true ∧
     rootSym formatters exTree = startSymbol ∧
     formatTree 3 exTree = some (.str "-- hi\n# c\n".toList) ∧
-    contentLeaves exTree = ["-- hi  ".toList, "# c".toList] := by
+    contentLeaves exTree = ["-- hi  ".toList, "# c \t".toList] := by
   decide +kernel
+
+/-! ## Token boundaries -/
+
+open Emboss.Generated.FmtGlue in
+/-- **Separability, as a certificate checked in the kernel** over the whole regenerated
+registry (interned copy `formattersN`, which `C11_table_ok` shows to decode to
+`formatters`) and the regenerated tables of Generated/FmtGlue.lean:
+
+* `nsN` is closed under the nullable rule, `fsN`/`lsN` under the FIRST/LAST rules, and every
+  symbol of `leadN` is a nonterminal all of whose productions render with a leading blank
+  relative to `leadN` — so the tables contain every nullable symbol, FIRST and LAST of
+  every nonterminal, and only symbols whose rendering (when non-empty) starts with a
+  blank (see Spec/FmtGlueCert.lean for the argument; it is not formalised);
+* **every pair of terminals** (LAST of one argument, FIRST of a later one, everything
+  between nullable) that some handler prints with nothing in between (`glue`: per handler,
+  between which arguments no blank is inserted; a symbol of `leadN` is never glued to its
+  left neighbour; `-` `-` is kept apart by `_additive_expression_right`) **is in the audited
+  list `allowedGlued`** — 239 pairs, no word–word pair, none that the tokenizer reads as one
+  token or splits elsewhere (each sampled on the real tokenizer on every run): no unsplit
+  pair.  Before commit 81a07e9 the pair `-` `-` was derived as well (`a - -b` → `a--b`).
+
+The compiled checker evaluates the fixpoint formulation (`gluedOK`, op `GLUECHECK`) on the
+table of strings on every run as well.  There is no theorem connecting `glue` to the
+handlers' code (that link is the byte-identical correspondence), nor a model of the
+tokenizer (sampling). -/
+theorem C11_render_separable :
+    symbols[minusN]? = some minusSym ∧
+    nullableClosed ((resolvedN formattersN).map (fun e => (e.1, e.2.1))) nsN = true ∧
+    edgeClosed ((resolvedN formattersN).map (fun e => (e.1, e.2.1))) nsN false fsN = true ∧
+    edgeClosed ((resolvedN formattersN).map (fun e => (e.1, e.2.1))) nsN true lsN = true ∧
+    leadSound (resolvedN formattersN) nsN leadN = true ∧
+    ∀ p ∈ pairsFrom minusN (resolvedN formattersN) nsN fsN lsN leadN,
+      ∃ a b, symbols[p.1]? = some a ∧ symbols[p.2]? = some b ∧ (a, b) ∈ allowedGlued :=
+  render_separable
+
+open Emboss.Generated.FmtGlue in
+/-- Non-vacuity (tests on literals, evaluated in Lemmas/FmtSeparableOK.lean): pairs are
+derived — e.g. `-` `Number` — and `-` `-` is not among them. -/
+example : (minusN, symbols.idxOf "Number") ∈ pairsFrom minusN (resolvedN formattersN) nsN fsN lsN leadN ∧
+    (minusN, minusN) ∉ pairsFrom minusN (resolvedN formattersN) nsN fsN lsN leadN :=
+  render_separable_nonvacuous
+
+/-! ## Normal form and fixed point -/
+
+/-- Second table obligation, decided in the kernel over the whole regenerated registry: in
+every registered production each right-hand-side position that holds a layout terminal
+(Indent, Dedent, newline) is one the handler ignores, and a `Documentation` terminal is
+only ever handed to `_doc` (which strips its trailing blanks before anything can measure
+them — the repair of finding `inline-doc-trailing-blanks-widen-column`). -/
+theorem C11_table_normal : tableNormal formatters = true := table_normal
+
+/-- Third table obligation, decided in the kernel over the whole regenerated registry: in
+every registered production the symbols `Comment` / `Comment?` stand exactly at the
+handler's comment position (`Handler.commentPos`: where the text ends a row, so its
+trailing blanks are stripped by the rendering and reach no column width that is used), and
+`Comment?` itself is produced by `_identity` from a comment or by `_empty_string`. -/
+theorem C11_table_comment : tableComment formatters = true := table_comment
+
+/-- **Formatting factors through a normal form of the parse tree**: two trees with the same
+productions and the same tokens, except for the *texts of layout tokens* (the source's
+indentation, line ends) and *trailing blanks of Documentation and Comment tokens*
+(`equivC`) — exactly what the property statement lets the formatter change, apart from
+blank lines, which are tree structure — are formatted to the same text, for every
+production and every indent width.  In particular the output never depends on how the
+source was indented or spaced.
+
+(`fold_equivC`: at every node the two folds give *related* values — rows and block headers
+whose last column may differ in trailing blanks; `_columnize` never uses the width of a
+last column, every other pass and `_render_row_to_text` strip or ignore it; uses
+`C11_table_ok`, `C11_table_normal`, `C11_table_comment`.)
+
+Still `_partial` with respect to idempotence: see the next theorem. -/
+theorem C11_format_factors_partial (iw : Nat) (t t' : Tree)
+    (hw : wf formatters t = true) (hroot : rootSym formatters t = startSymbol)
+    (he : equivC t t' = true) :
+    formatTree iw t' = formatTree iw t := by
+  obtain ⟨v, hv, hk, _⟩ := fold_ok formatters iw C11_table_ok.1 t hw
+  obtain ⟨v', hv', hr⟩ := fold_equivC formatters iw C11_table_ok.1 C11_table_normal C11_table_comment
+    t t' hw he v hv
+  rw [hroot, C11_table_ok.2.2] at hk
+  obtain ⟨s, rfl⟩ := hk
+  have hnc : isCommentSym startSymbol = false := by decide
+  cases t with
+  | node p cs =>
+    simp only [Res3, hroot, hnc, Bool.false_eq_true, if_false] at hr
+    cases v' <;> simp only [VRel] at hr
+    subst hr
+    unfold formatTree
+    rw [hv, hv']
+  | tok s0 x =>
+    simp only [rootSym] at hroot
+    subst hroot
+    have h1 : isLayoutSym startSymbol = false := by decide
+    have h2 : startSymbol ≠ docSym := by decide
+    have h3 : startSymbol ≠ commentSym := by decide
+    simp only [Res3, h1, h2, h3, Bool.false_eq_true, if_false] at hr
+    obtain ⟨y, hy, rfl⟩ := hr
+    unfold formatTree
+    rw [hv, hv', hy]
+
+/-- **Fixed point, partial**: if `t` is formatted to `out`, then every tree `t2` equivalent to
+`t` is formatted to `out` as well.  With `t2` := the parse tree of `out` this is
+`fmt (fmt t) = fmt t`.
+
+Full statement wanted: `∀ t, fmt (parse (fmt t)) = fmt t`.  Missing, decided by the
+oracle on the real code for every generated case: that the parse tree of the formatted
+text *is* equivalent to `t` — same token sequence (`C11_tokens_preserved` +
+`C11_render_separable` give it on the character level and per terminal-class pair) **and**
+the same comment-line / blank-line structure (the formatter's own normalisation of blank
+lines must be stable under re-parsing; needs tokenizer ∘ parser as one object).  The
+harness counts on how many of its cases the hypothesis holds
+(`fixed_point_theorem_applies`: there idempotence is a consequence of this theorem and the
+byte-identical correspondence); for the others it is the oracle's verdict alone. -/
+theorem C11_format_fixed_point_partial (iw : Nat) (t t2 : Tree) (out : Str)
+    (hw : wf formatters t = true) (hroot : rootSym formatters t = startSymbol)
+    (hfmt : formatTree iw t = some (.str out)) (he : equivC t t2 = true) :
+    formatTree iw t2 = some (.str out) := by
+  rw [C11_format_factors_partial iw t t2 hw hroot he]; exact hfmt
+
+/-! Non-vacuity: `exTree` is the parse tree of "-- hi  \n# c \t\n" and is formatted to
+"-- hi\n# c\n", whose parse tree is `exTree2` (documentation and comment without the
+trailing blanks, other line-end texts); the two are equivalent, so `exTree2` is a fixed
+point. -/
+
+def exTree2 : Tree :=
+  .node (ix "module" ["comment-line*", "doc-line*", "import-line*", "attribute-line*", "type-definition*"]) [
+    .node (ix "comment-line*" []) [],
+    .node (ix "doc-line*" ["doc-line", "doc-line*"]) [
+      .node (ix "doc-line" ["doc", "Comment?", "eol"]) [
+        .node (ix "doc" ["Documentation"]) [.tok "Documentation" "-- hi".toList],
+        .node (ix "Comment?" []) [],
+        .node (ix "eol" ["\"\\n\"", "comment-line*"]) [
+          .tok "\"\\n\"" "\r\n".toList,
+          .node (ix "comment-line*" ["comment-line", "comment-line*"]) [
+            .node (ix "comment-line" ["Comment?", "\"\\n\""]) [
+              .node (ix "Comment?" ["Comment"]) [.tok "Comment" "# c".toList],
+              .tok "\"\\n\"" "\n".toList],
+            .node (ix "comment-line*" []) []]]],
+      .node (ix "doc-line*" []) []],
+    .node (ix "import-line*" []) [],
+    .node (ix "attribute-line*" []) [],
+    .node (ix "type-definition*" []) []]
+
+example : equivC exTree exTree2 = true ∧ exTree ≠ exTree2 := by
+  constructor
+  · decide +kernel
+  · intro h; simp [exTree, exTree2] at h
+
+example : formatTree 3 exTree2 = some (.str "-- hi\n# c\n".toList) :=
+  C11_format_fixed_point_partial 3 exTree exTree2 _ (by decide +kernel) (by decide +kernel)
+    (by decide +kernel) (by decide +kernel)
+
+/-- **The global row passes are projections** (a necessary ingredient of idempotence that
+needs no tokenizer): stripping leading/trailing empty comment rows, re-indenting blank and
+comment rows to the following row, and inserting a blank row at a dedent each change
+nothing when applied to their own result — for every list of rows; and every rendered
+line is free of trailing blanks.  It does not follow that the whole pipeline is idempotent
+(the rows of the second run come from re-parsing the text). -/
+theorem C11_layout_passes_idempotent (iw : Nat) (rows : List Row) :
+    stripEmptyRows (stripEmptyRows rows) = stripEmptyRows rows ∧
+    indentBlanksAndComments (indentBlanksAndComments rows) = indentBlanksAndComments rows ∧
+    addBlankRowsOnDedent (addBlankRowsOnDedent rows) = addBlankRowsOnDedent rows ∧
+    ∀ r ∈ rows, ∀ t, renderRow iw r = some t → rstrip t = t :=
+  ⟨stripEmptyRows_idem rows, indentBlanksAndComments_idem rows, addBlankRowsOnDedent_idem rows,
+   fun r _ t h => renderRow_trimmed iw r t h⟩
+
+/-- Non-vacuity (test on literals): on these rows every pass does change something. -/
+example :
+    let rows : List Row := [{ name := .comment }, { name := .comment, columns := ["# c  ".toList] },
+      { name := .field, columns := ["x".toList], indent := 1 }, { name := .field, columns := ["y".toList] },
+      { name := .comment }]
+    stripEmptyRows rows ≠ rows ∧ indentBlanksAndComments rows ≠ rows ∧ addBlankRowsOnDedent rows ≠ rows ∧
+    renderRow 2 { name := .comment, columns := ["# c  ".toList] } = some "# c".toList := by
+  decide
 
 /-! ## The self-check -/
 
-/-- `sanity_check_format_result` (its comparison loop over the collapsed streams)
-returns `[]` iff the original stream agrees with a *prefix* of the formatted stream.
-Full statement wanted: `… = .ok ↔ StreamsAgree o f`; it is false (next theorem): the
-loop never looks at `len(f_tokens)`. -/
-theorem C11_sanity_agrees_partial (o f : List Tok) :
-    sanityLoop 0 o f = .ok ↔ ∃ f1 f2, f = f1 ++ f2 ∧ StreamsAgree o f1 :=
+/-- `sanity_check_format_result` (its comparison of the collapsed token streams) returns
+`[]` **iff** the collapsed streams agree: same length, and at every position the same
+symbol and the same text up to surrounding blanks.  (Before commit f3f855c only
+"the original agrees with a *prefix* of the formatted stream" held.) -/
+theorem C11_sanity_agrees (o f : List Tok) :
+    sanityLoop 0 o f = .ok ↔ StreamsAgree o f :=
   sanityLoop_ok_iff o f 0
 
-/-- When the formatted stream is not longer than the original one (which
-`C11_tokens_preserved` + the correspondence give for the real formatter output), the
-self-check returns `[]` exactly when the streams agree. -/
-theorem C11_sanity_agrees_of_length (o f : List Tok) (hlen : f.length ≤ o.length) :
-    sanityLoop 0 o f = .ok ↔ StreamsAgree o f := by
-  rw [C11_sanity_agrees_partial]
+/-- … and when it reports "Symbol k differs", `k` is the first position at which the
+streams differ (both have a token there and the streams agree before it): the length
+comparison does not mask a differing symbol. -/
+theorem C11_sanity_reports_first_difference (o f : List Tok) (k : Nat) :
+    sanityLoop 0 o f = .differs k ↔ FirstDiff o f k := by
+  rw [sanityLoop_differs_iff]
   constructor
-  · rintro ⟨f1, f2, rfl, h⟩
-    have := h.length_eq
-    have : f2 = [] := by
-      cases f2 with
-      | nil => rfl
-      | cons x xs => simp at hlen; omega
-    subst this; simpa using h
-  · intro h; exact ⟨f, [], by simp, h⟩
+  · rintro ⟨j, rfl, h⟩; simpa using h
+  · intro h; exact ⟨k, by simp, h⟩
 
-/-- With the length comparison of fixes/C11-sanity-check-length.patch the intended
-statement holds in full: `[]` iff the collapsed streams agree (and no `IndexError`). -/
-theorem C11_sanity_agrees_fixed (o f : List Tok) :
-    sanityLoopLen o f = .ok ↔ StreamsAgree o f := by
-  unfold sanityLoopLen
-  split
-  · rename_i hne
-    constructor
-    · intro h; cases h
-    · intro h; exact absurd h.length_eq hne
-  · rename_i heq
-    have : f.length ≤ o.length := by
-      have : o.length = f.length := Decidable.of_not_not heq
-      omega
-    exact C11_sanity_agrees_of_length o f this
+/-- Hence "Token count differs" is reported exactly when one collapsed stream agrees with
+a proper prefix of the other. -/
+theorem C11_sanity_count_differs (o f : List Tok) :
+    sanityLoop 0 o f = .countDiffers ↔ ¬ StreamsAgree o f ∧ ∀ k, ¬ FirstDiff o f k := by
+  rw [← C11_sanity_agrees]
+  constructor
+  · intro h
+    refine ⟨?_, fun k hk => ?_⟩
+    · rw [h]; intro h'; cases h'
+    · rw [← C11_sanity_reports_first_difference, h] at hk; cases hk
+  · rintro ⟨h1, h2⟩
+    cases hr : sanityLoop 0 o f with
+    | ok => exact absurd hr h1
+    | differs k => exact absurd ((C11_sanity_reports_first_difference o f k).1 hr) (h2 k)
+    | countDiffers => rfl
 
 def tDoc : Tok := ⟨"Documentation", "-- doc".toList⟩
 def tNl : Tok := ⟨nlSym, "\n".toList⟩
 def tExtra : Tok := ⟨"Documentation", "-- extra".toList⟩
 
-/-- Counterexample to the full statement (finding `sanity-check-ignores-length`):
-formatted "-- doc\n-- extra\n" against original "-- doc\n" is accepted although the streams
-differ; and with the texts swapped the loop indexes past the end (`IndexError`). -/
-theorem C11_sanity_agrees_counterexample :
-    sanityCheck [tDoc, tNl, tExtra, tNl] [tDoc, tNl] = .ok ∧
-    ¬ StreamsAgree (collapseNewlines [tDoc, tNl]) (collapseNewlines [tDoc, tNl, tExtra, tNl]) ∧
-    sanityCheck [tDoc, tNl] [tDoc, tNl, tExtra, tNl] = .indexError 2 := by
-  refine ⟨by decide, ?_, by decide⟩
-  intro h
-  have := h.length_eq
-  revert this
-  decide
-
-/-- Non-vacuity of `C11_sanity_agrees_of_length`: extra newlines and trailing blanks. -/
+/-- Non-vacuity / tests on literals: extra newlines and trailing blanks are accepted; the
+pinned probes of the repaired finding `sanity-check-ignores-length` (formatted
+"-- doc\n-- extra\n" against original "-- doc\n", and the swapped pair) are reported as
+a token-count difference; a differing symbol in front of a length difference is reported
+as a differing symbol. -/
 example : sanityCheck [tNl, ⟨"Documentation", "-- doc  ".toList⟩, tNl, tNl] [tDoc, tNl] = .ok := by decide
-
-/-! ## Known defects, on the model -/
-
-/-- Finding `minus-minus-juxtaposed`: the handler registered for
-`additive-expression-right -> additive-operator times-expression` and for
-`additive-expression -> times-expression additive-expression-right*` is `_concatenate`;
-on `x`, `-`, `-5` it yields `x--5`, whose tail the tokenizer reads as documentation. -/
-theorem C11_render_separable_counterexample (iw : Nat) :
-    Handler.run iw .concatenate [.str "-".toList, .str "-5".toList] = some (.str "--5".toList) ∧
-    Handler.run iw .concatenate [.str "x".toList, .str "--5".toList] = some (.str "x--5".toList) := by
-  constructor <;> rfl
-
-def evBlock (nm val doc cm : String) : Block :=
-  { pre := [],
-    header := { name := RowName.enumValue,
-                columns := [nm.toList, "=".toList, val.toList, [], doc.toList, cm.toList],
-                indent := 0 },
-    body := [] }
-
-/-- Finding `inline-doc-trailing-blanks-widen-column`: the documentation column is as
-wide as the untrimmed token, so the trailing comment of the *other* row lands at a
-column that depends on blanks the rendering then strips: after one formatting pass the
-blanks are gone and a second pass moves the comment (13 → 10 blanks here). -/
-theorem C11_idempotence_counterexample :
-    (columnize [evBlock "AA" "1" "-- abc   " "", evBlock "BB" "2" "" "# c"] 2 1).map
-        (fun s => s.map (fun l => l.map (fun r => r.columns.map String.ofList))) =
-      some [[["AA = 1  -- abc"]], [["BB = 2             # c"]]] ∧
-    (columnize [evBlock "AA" "1" "-- abc" "", evBlock "BB" "2" "" "# c"] 2 1).map
-        (fun s => s.map (fun l => l.map (fun r => r.columns.map String.ofList))) =
-      some [[["AA = 1  -- abc"]], [["BB = 2          # c"]]] := by
-  decide +kernel
+example : sanityCheck [tDoc, tNl, tExtra, tNl] [tDoc, tNl] = .countDiffers ∧
+    sanityCheck [tDoc, tNl] [tDoc, tNl, tExtra, tNl] = .countDiffers ∧
+    sanityCheck [] [tDoc, tNl] = .countDiffers ∧
+    sanityCheck [tExtra, tNl, tDoc, tNl] [tDoc, tNl] = .differs 0 := by decide
+example : StreamsAgree (collapseNewlines [tDoc, tNl])
+    (collapseNewlines [tNl, ⟨"Documentation", "-- doc  ".toList⟩, tNl, tNl]) :=
+  (C11_sanity_agrees _ _).1 (by decide)
 
 end Emboss.Fmt
